@@ -1053,7 +1053,7 @@ INVARIANT LinearisationOK
 """
 
 # handler names: the laws of HandlerName are checked by TLC for every name over this alphabet up to the length
-NAME_ALPHABET = {"quick": ("AQan20", 4), "thorough": ("AQan20", 6)}
+NAME_ALPHABET = {"quick": ("AQan20", 4), "thorough": ("AQan20", 5)}
 ATTR_RE = re.compile(r"[a-z][a-z0-9_]*")  # attribute names that can be the handler name of a type
 LATE_MARK = "@@C19-LATE@@"
 LATE_PARENTS = ("Operator", "Terminal", "MathFunction")
@@ -1186,7 +1186,7 @@ def late_types(names, seed, tier):
         add(name, parent)
     if len(out) != len(LATE_FIXED):
         raise MachineryError("a fixed late type name collides with a registered name")
-    for _ in range(12 if tier == "quick" else 120):
+    for _ in range(12 if tier == "quick" else 36):
         n = rng.randint(2, 7)
         name = rng.choice("ABCDEFGHIJKLMNOPQRSTUVWXYZ")
         for _ in range(n - 1):
@@ -1377,7 +1377,7 @@ def dispatch_tlc(seed, tier, libs):
         f"MCAttrMF == {attrset(pre['MF'])}\nMCAttrTR == {attrset(pre['TR'])}\nMCAttrDT == {attrset(pre['DT'])}\n"
         f"MCAlphabet == {tlc.tla(set(alphabet))}\n====\n"
     )
-    res = tlc.run("HandlerResolution", DISPATCH_CFG % maxlen, mc_text=mc, mc_name="MC_HandlerResolution", workers=1, timeout=600, env={"JAVA_TOOL_OPTIONS": JAVA_OPTS})
+    res = tlc.run("HandlerResolution", DISPATCH_CFG % maxlen, mc_text=mc, mc_name="MC_HandlerResolution", workers=1, timeout=1800, env={"JAVA_TOOL_OPTIONS": JAVA_OPTS})
     return res, cases, late, libs
 
 
@@ -1410,12 +1410,16 @@ def run_dispatch(ctx, tlc_out, selftest=False):
         raise MachineryError("handler names of the spec: one distinct name per type expected")
     if nrow[0]["predt"] != nrow[0]["premf"]:
         raise MachineryError("DAGTraverser predefines handler names that MultiFunction does not: extend HandlerResolution.Row")
-    # the cases that involve a late type are observed in a child process that registers the late types
+    # the cases that involve a late type are observed in a child process that registers the late types; so is
+    # every second one of the other cases (there, the late types are dispatched to the handlers of their ancestors)
     late_k = [k for k, case in enumerate(cases) if any(t > n_real for t in case)]
-    if selftest:
-        late_k = late_k[:40]
+    plain_k = [k for k, case in enumerate(cases) if not any(t > n_real for t in case)]
+    child_k = late_k[:40] if selftest else late_k + plain_k[1::2]
+    here_k = plain_k if selftest else plain_k[0::2]
+    if not late_k:
+        raise MachineryError("no dispatch case involves a late type")
     with cf.ThreadPoolExecutor(max_workers=1) as tex:
-        f_late = tex.submit(observe_late, late, names, hn, [cases[k] for k in late_k])
+        f_late = tex.submit(observe_late, late, names, hn, [cases[k] for k in child_k])
         if selftest:
             row = rows[2]
             t = cases[1][0] - 1
@@ -1475,9 +1479,8 @@ def run_dispatch(ctx, tlc_out, selftest=False):
                          "handlers": [hn[t - 1] for t in case], "late": late if max([i + 1] + case) > n_real else []},
                     )  # fmt: skip
 
-        for k, case in enumerate(cases):
-            if not any(t > n_real for t in case):
-                judge(k, observe_dispatch(classes, idx, case, hn), code_names, "")
+        for k in here_k:
+            judge(k, observe_dispatch(classes, idx, cases[k], hn), code_names, "")
         # the handler tables of the library itself
         n_lib_proper = 0
         for j, lib in enumerate(libs):
@@ -1514,7 +1517,9 @@ def run_dispatch(ctx, tlc_out, selftest=False):
     for i in range(n_real, len(names)):
         if child["code_names"][i] != hn[i]:
             ctx.count(f"handler_name_differs:late-type:{shape_of(names[i])}")
-    for k, got in zip(late_k, child["got"]):
+    if len(child["got"]) != len(child_k):
+        raise MachineryError("the child process observed another number of cases")
+    for k, got in zip(child_k, child["got"]):
         judge(k, got, child["code_names"], " [late types registered]")
     ctx.count("dispatch_cases", len(cases))
     ctx.count("dispatch_cases_with_late_types", len(late_k))
@@ -1667,8 +1672,8 @@ def run(ctx, args):
     ctx.assume("nearest ancestor = first class of the C3 linearisation of the UFL class graph (checked equal to __mro__ restricted to UFL types) that defines a handler; Transformer predefines `terminal`; BaseForm types (not Expr) are reported separately")
     ctx.assume("CPython set/dict lookups call stored_key.__eq__(probe) only for distinct objects with equal hash (identity is tested first)")
 
+    libs = library_tables()  # imports every ufl module: before anything looks at the type registry, before the pools start
     env = Env.get()
-    libs = library_tables()  # imports every ufl module: before the pools start
     cfgs = configs(ctx.tier)
     tasks = [(c, s, c["workers"], False) for c in cfgs for s in range(c.get("shards", c["nshards"]))]
     if selftest:
